@@ -5,12 +5,14 @@ import fxpmath
 from fxpmath.callbacks import Callback
 from ..env import Fxp, parse_list, tok_list, lims, exc_token, tok_frac, to_float, is_exact_float, frac, ROUNDS, OVFS
 from .. import gen as G
+from .. import carriers as C
+from ..arith import hist_of
 from . import base
 
 TRUSTED_BASE = base.TRUSTED_BASE
 ASSUMPTIONS = base.ASSUMPTIONS + ['reading: a "write" is one call of __call__/set_val/__setitem__ (and the re-store done by resize) on an existing real-valued object; construction and complex writes are not counted',
                                   '"results of arithmetic" = results of the binary operators/functions that go through the function wrappers']
-RULE = ('HIST lines: random histories (<=10 steps) of scalar/array writes by call and set_val, indexed writes, reset, resize and arithmetic-derive on formats <=52 bits with a recording Callback; after every step flags, fired callbacks (in order) '
+RULE = ('HIST lines: random histories (<=10 steps) of scalar/array writes by call and set_val (values as numbers/lists, every third time inside another exact Fxp object), indexed writes, reset, resize and arithmetic-derive on formats <=52 bits with a recording Callback; after every step flags, fired callbacks (in order) '
         'and, for derive steps, the inaccuracy flag of x+y are compared. Write values sit at hi, hi+1/4 LSB, hi+1, lo, lo-1/4 LSB, lo-1, codes and ties. non-trivial = a history in which some flag was raised')
 TECHNIQUE = 'Lean 4 theorems on the status state machine (flags iff conditions, trace exact, stickiness by induction over histories, reset, propagation) + differential correspondence of flag/callback traces'
 LEVEL_TEXT = ('Machine-checked on the status state machine: a write from any state raises overflow/underflow/inaccuracy exactly when some rounded element exceeds the maximum / is below the minimum / some stored element differs from its input; the callback trace of a write is the '
@@ -60,15 +62,22 @@ def exec_HIST(t):
             parts = tok.split(':')
             rec.ev.clear()
             if parts[0] in ('W', 'S'):
-                vs = [pyval(frac(v)) for v in parse_list(parts[1])]
+                qs = [frac(v) for v in parse_list(parts[1])]
+                vs = [pyval(q) for q in qs]
                 val = vs[0] if size == 0 else vs
+                # every third whole write (content-determined) hands the values over inside another, exact Fxp object
+                if hist_of(len(out), len(qs), *[int(q * 4) % 1009 for q in qs]) % 3 == 0:
+                    c = 'fxp' if size == 0 else 'arr.fxp'
+                    if C.ok_for(c, qs):
+                        val = C.build(c, qs)[0]
                 if parts[0] == 'W':
                     x(val)
                 else:
                     x.set_val(val)
                 out.append(flags(x) + ':' + ''.join(rec.ev))
             elif parts[0] == 'I':
-                x[int(parts[1])] = pyval(frac(parts[2]))
+                q = frac(parts[2])
+                x[int(parts[1])] = C.build('fxp', [q])[0] if (hist_of(len(out), int(q * 4) % 1009) % 3 == 0 and C.ok_for('fxp', [q])) else pyval(q)
                 out.append(flags(x) + ':' + ''.join(rec.ev))
             elif parts[0] == 'R':
                 x.reset()
